@@ -74,6 +74,8 @@ type KnownFinding struct {
 	What       string `json:"what"`
 	Status     string `json:"status"` // open | fixed
 	Commit     string `json:"commit,omitempty"`
+	Demo       string `json:"demo,omitempty"`
+	AlsoIn     []string `json:"also_in,omitempty"` // other properties whose check contains the same obligation
 }
 
 func loadJSON(path string, v interface{}) error {
@@ -266,7 +268,13 @@ func RunCheck(cfg *CheckConfig) int {
 	loadJSON(filepath.Join(cfg.Verif, "known_findings.json"), &known)
 	knownOpen := map[string]KnownFinding{}
 	for _, k := range known {
-		if k.Property == cfg.Property && k.Status == "open" {
+		applies := k.Property == cfg.Property
+		for _, p := range k.AlsoIn {
+			if p == cfg.Property {
+				applies = true
+			}
+		}
+		if applies && k.Status == "open" {
 			knownOpen[k.Obligation] = k
 		}
 	}
